@@ -6594,3 +6594,80 @@ def c11_input_handle_follows_the_attach(env):
 
 
 REGISTRY.setdefault("C11", []).append(c11_input_handle_follows_the_attach)
+
+
+# ---- C13: the session engine leaves its loop only when the session is UNMAPPED --------------------------------
+
+
+def c13_engine_stops_only_unmapped(env):
+    o = Obligation("c13_the_session_engine_stops_only_when_unmapped", "C13")
+    o.desc = "SessionEngine::on_incoming / on_control / on_outgoing_link_frames (the three handlers whose result decides whether the session task keeps running): they report Running::Stop only when the session's state is UNMAPPED -- in particular not in DISCARDING (the local end with an error has been sent, the peer's answer is still to come: stopping there makes end_with_error return before the peer answered, loses the error of the peer's end and leaves the peer's end to hit a channel without a session) nor in END_SENT / END_RCVD"
+    SS = env.enums["SessionState"]
+    RN = env.enums.get("Running")
+    if not RN or "Stop" not in RN:
+        raise mir.Unsupported("Running layout not found")
+    fns = []
+    n = 0
+
+    def replay(m):
+        return "scn end_with_error_waits", (lambda js: js.get("panic") or not js["returned_after_the_peers_end"])
+
+    for short in ("on_incoming", "on_control", "on_outgoing_link_frames"):
+        fn = env.fn(r"^session::engine::<impl at [^>]*>::%s::\{closure#0\}$" % short)
+        fns.append(fn.name)
+        states = _coroutine_states(fn)
+        helper = [k for k in env.fns if re.search(r"^session::engine::<impl at [^>]*>::continue_or_stop_by_state$", k)]
+        for k in states:
+            ex = env.executor(max_visits=_mv(1, 2))
+            ex.max_paths = 6000
+            ex.stop_calls = None
+            if helper:
+                ex.inline = {r"::continue_or_stop_by_state$": r"^session::engine::<impl at [^>]*>::continue_or_stop_by_state$"}
+
+            def m_state(ex_, st, callee, args, argvals, dty):
+                a = mir.Agg("SessionState")
+                d = z3.BitVec(f"local_state#{ex_.ctx.n}", 64)
+                ex_.ctx.n += 1
+                ex_.assumptions.append(z3.Or(*[d == v for v in SS.values()]))
+                a["#d"] = d
+                key = f"@state{ex_.ctx.n}"
+                st.locals[key] = a
+                return mir.Ref((key,), False)
+
+            ex.models = [(r"as (endpoint::)?(session::)?Session>::local_state$", m_state)]
+            cor = mir.Agg("coroutine")
+            cor["#d"] = z3.BitVecVal(k, 64)
+            pin = mir.Agg("pin")
+            pin[0] = mir.Ref(("@cor",), True)
+            paths = ex.run(fn, {"_1": pin, "@cor": cor})
+            for i, p in enumerate(paths):
+                if p.end != "return" or not isinstance(p.ret, mir.Agg) or "#d" not in p.ret:
+                    continue
+                rdy, is_ok = poll_ready_result(p.ret)
+                if is_ok is None:
+                    continue
+                okv = p.ret[("as", "Ready")][0].get(("as", "Ok"))
+                run = okv.get(0) if isinstance(okv, mir.Agg) else None
+                rd = run.get("#d") if isinstance(run, mir.Agg) else None
+                if rd is None:
+                    continue
+                H = ex.assumptions + p.cond + [rdy, is_ok, rd == RN["Stop"]]
+                s = z3.Solver()
+                s.add(*H)
+                if s.check() != z3.sat:
+                    continue
+                n += 1
+                sts = [c for c in p.calls if re.search(r"Session>::local_state$", c[0]) and isinstance(c[3], mir.Ref)]
+                if not sts:
+                    o.prove(f"{short}:state{k}:path{i}:stop-is-decided-by-the-session-state", H, z3.BoolVal(False), replay=replay)
+                    continue
+                last = p.locals.get(sts[-1][3].path[0])
+                o.prove(f"{short}:state{k}:path{i}:stops-only-when-unmapped", H, last["#d"] == SS["Unmapped"], replay=replay)
+    o.functions = fns
+    o.bounds = ["the three coroutines from every resume state through one poll; inner loops cut after one visit; every session state at every look"]
+    o.assumes = ["Session::local_state returns the state the lifecycle functions maintain (c13_session_*)"]
+    o.cover("paths that report Stop", [z3.BoolVal(n > 0)])
+    return [o]
+
+
+REGISTRY.setdefault("C13", []).append(c13_engine_stops_only_unmapped)
